@@ -856,6 +856,8 @@ class Frame:
                 other = b if self._private_sentinel(a) else a
                 if isinstance(other, (Child, New, Const)) or (isinstance(other, Sym) and not other.args and not other.text and other.head.isidentifier()):
                     res = False
+                elif isinstance(other, Sym) and other.head == "call:run" and (self._private_sentinel(a) or self._private_sentinel(b) or "") not in other.key():
+                    res = False         # what a request's handler answered: the marker never leaves its module
             if res is None:
                 return None
             return res if isinstance(test.ops[0], ast.Is) else (not res)
@@ -899,6 +901,14 @@ class Frame:
                     v = getattr(s_, "value", None)
                     if isinstance(tg, ast.Name) and tg.id == name and isinstance(v, ast.Call) and isinstance(v.func, ast.Name) and v.func.id == "object" and not v.args:
                         return t.text
+                    # … or the member of a private enumeration of that module (``class _Miss(Enum): token = 0`` / ``_MISS = _Miss.token``:
+                    # the typed spelling of the same marker), or the only instance of a private marker class (``_MISS = _Miss()``)
+                    if isinstance(tg, ast.Name) and tg.id == name and v is not None:
+                        cn = v.value if isinstance(v, ast.Attribute) else (v.func if isinstance(v, ast.Call) and not v.args and not v.keywords else None)
+                        if isinstance(cn, ast.Name) and cn.id.startswith("_"):
+                            cd = next((c_ for c_ in m.tree.body if isinstance(c_, ast.ClassDef) and c_.name == cn.id), None)
+                            if cd is not None and (isinstance(v, ast.Call) or any(ast.unparse(b_).split(".")[-1] in ("Enum", "IntEnum", "Flag") for b_ in cd.bases)):
+                                return t.text
         return None
 
     @staticmethod
@@ -925,8 +935,10 @@ class Frame:
                 return Const(MISSING)
             if e.id == "None":
                 return Const(None)
-            if r and r[0] == "var" and e.id.startswith("_") and isinstance(r[1], ast.Call) and isinstance(r[1].func, ast.Name) and r[1].func.id == "object" and not r[1].args:
-                return Sym("global", text=f"{r[2].name}.{e.id}")        # a private module-level marker
+            if r and r[0] == "var" and e.id.startswith("_"):
+                g_ = Sym("global", text=f"{r[2].name}.{e.id}")
+                if self._private_sentinel(g_):
+                    return g_        # a private module-level marker
             return None
         if isinstance(e, ast.Constant):
             return Const(e.value)
